@@ -98,14 +98,16 @@ void ParticleSwarm(const ObjectiveFunction f, const TasDREAM::DreamDomain inside
 
     // Create a lambda that converts f to a constrained version that only evaluates points inside the domain. This lambda also
     // writes to a bool vector whose i-th entry is true if particle i is in the domain.
-    auto f_constrained = [=](const std::vector<double> &x_batch, std::vector<double> &fval_batch, std::vector<bool> &inside_batch)->void {
+    // When \b only is given, the strips whose entry is false are skipped: neither the domain test nor f sees them.
+    auto f_constrained = [=](const std::vector<double> &x_batch, std::vector<double> &fval_batch, std::vector<bool> &inside_batch,
+                             const std::vector<bool> *only)->void {
         // Collect and apply the domain information given by inside() and x_batch.
         size_t num_batch(fval_batch.size()), num_inside(0);
         std::vector<double> candidate(num_dimensions), inside_points;
         for (size_t i=0; i<num_batch; i++) {
             fval_batch[i] = std::numeric_limits<double>::max();
             std::copy_n(x_batch.begin() + i * num_dimensions, num_dimensions, candidate.begin());
-            inside_batch[i] = inside(candidate);
+            inside_batch[i] = (only == nullptr or (*only)[i]) and inside(candidate);
             if (inside_batch[i]) {
                 std::copy_n(candidate.begin(), num_dimensions, std::back_inserter(inside_points));
                 num_inside++;
@@ -148,9 +150,11 @@ void ParticleSwarm(const ObjectiveFunction f, const TasDREAM::DreamDomain inside
 
     // Set up the cache and best particle positions.
     if (!state.cache_initialized) {
-        f_constrained(state.particle_positions, state.cache_particle_fvals, state.cache_particle_inside);
+        f_constrained(state.particle_positions, state.cache_particle_fvals, state.cache_particle_inside, nullptr);
         if (state.best_positions_initialized) {
-            f_constrained(state.best_particle_positions, state.cache_best_particle_fvals, state.cache_best_particle_inside);
+            // a best strip that was never set holds zeros, not a visited point: it must not be evaluated and adopted
+            std::vector<bool> best_is_set = state.cache_best_particle_inside;
+            f_constrained(state.best_particle_positions, state.cache_best_particle_fvals, state.cache_best_particle_inside, &best_is_set);
         }
         state.cache_initialized = true;
     }
@@ -204,7 +208,7 @@ void ParticleSwarm(const ObjectiveFunction f, const TasDREAM::DreamDomain inside
         for (size_t i=0; i< num_particles * num_dimensions; i++) {
             state.particle_positions[i] += state.particle_velocities[i];
         }
-        f_constrained(state.particle_positions, state.cache_particle_fvals, state.cache_particle_inside);
+        f_constrained(state.particle_positions, state.cache_particle_fvals, state.cache_particle_inside, nullptr);
         update();
     }
 }
